@@ -22,7 +22,8 @@ EXTRA = ["(progn (setq h (make-hash-table)) (puthash 'k 1 h) (puthash \"s\" 2 h)
          "(sort '(3 1 2) '<)", "(let ((tb (make-hash-table))) (dolist (k '(a b c d e f g)) (puthash k k tb)) (mapcar (lambda (k) (gethash k tb)) '(g f e d c b a)))",
          "(defmacro shared-mac (x) (list 'list x x))", "(shared-mac 4)",
          "(progn (setq tb (make-hash-table)) (list (prin1-to-string tb) (format \"%s|%S\" tb (list 1 tb))))", "(prin1-to-string (list (make-hash-table) (make-hash-table)))",
-         "(format \"%S\" (lambda (x) x))",
+         "(format \"%S\" (lambda (x) x))", "(prin 1)", "(progn (defun my-fa () 1) (defun my-fb () 2) (defun my-fc () 3) (defun my-fd () 4) (my-f))", "(ca '(1))", "(nosuchfn 1 2)", "(strin \"a\" \"b\")",
+         "(let ((my-va 1) (my-vb 2)) my-v)", "(setq-x a 1)", "(gethas 1 (make-hash-table))",
          "(let ((h (make-hash-table)) (hits nil)) (dotimes (i 500) (puthash (concat \"key\" \"\") i h)) (dotimes (i 300) (if (gethash (concat \"key\" \"\") h) (setq hits (cons i hits)))) hits)", "(prin1-to-string (list 'car (make-symbol \"u\") (gensym)))",
          "(setq a \"line1\r\nline2\r\n\")", "(list \"x\r\ny\" (length \"\r\n\")\r\n (concat \"a\r\" \"\nb\"))", "(progn\r\n  (setq b \"cr\rlf\ncrlf\r\n\")\r\n  b) ; comment\r\n",
          "(format \"%s|%S\" \"p\r\nq\" \"p\r\nq\")", "(string= \"a\r\nb\" \"a\nb\")"]
@@ -48,7 +49,9 @@ def history(rng):
 def transcript_lines(h, ctx=None, as_file=None, tag=""):
     out = []
     for k, p in enumerate(h):
-        if as_file == "file":
+        if as_file == "errfmt":
+            out.append("ERRFMT " + C.esc(p))          # the complete rendered error message (text, hints, backtrace), compared between runs
+        elif as_file == "file":
             out.append("LOADFILE c19_%s_%d.lisp %s" % (tag, k, C.esc(p)))
         elif as_file == "samefile":
             # every program of the history is written to, and loaded from, THE SAME path
@@ -76,6 +79,9 @@ def generate(tier, seed):
         # (a) alone, (b) again
         for name in ("alone", "again"):
             lines.append("NEW"); s = len(lines); lines += transcript_lines(h); grp[name] = list(range(s, len(lines)))
+        if k % 3 == 0:
+            for name in ("errA", "errB"):
+                lines.append("NEW"); s = len(lines); lines += transcript_lines(h, as_file="errfmt"); grp[name] = list(range(s, len(lines)))
         # (e) from files
         for name in ("file", "nested", "samefile", "samenested"):
             lines.append("NEW"); s = len(lines)
@@ -123,7 +129,13 @@ def oracle(lines, impl, model, meta):
                 break
         else:
             b2 = [impl2[i] for i in g["alone"]]
-            if b2 != base:
+            if "errA" in g and [impl[i] for i in g["errA"]] != [impl[i] for i in g["errB"]]:
+                ea, eb = [impl[i] for i in g["errA"]], [impl[i] for i in g["errB"]]
+                kk = next((j for j, (x, y) in enumerate(zip(ea, eb)) if x != y), 0)
+                bad.append(("rendered error messages of the same history differ between two fresh contexts", ["NEW"] + [lines[i] for i in g["errA"]], kk + 1, str(eb[kk:kk + 1]), str(ea[kk:kk + 1])))
+            elif "errA" in g and [impl2[i] for i in g["errA"]] != [impl[i] for i in g["errA"]]:
+                bad.append(("rendered error messages differ between two processes", ["NEW"] + [lines[i] for i in g["errA"]], 1, "", ""))
+            elif b2 != base:
                 bad.append(("transcript differs between two processes", ["NEW"] + [lines[i] for i in g["alone"]], 1, str(b2[:3]), str(base[:3])))
             elif any((x or "").startswith("OK") for x in base) and len({x for x in base if (x or "").startswith("STATE")}) > 1:
                 nt += 1
@@ -132,3 +144,9 @@ def oracle(lines, impl, model, meta):
 
 def count_nontrivial(lines, impl, model):
     return len({tuple(lines[i] for i in idxs) for idxs in C.split_cases(lines)})
+
+def normalize(line, ans):
+    # the model does not render messages: compare error-ness only for the rendered requests
+    if line.startswith("ERRFMT"):
+        return "ERR" if ans.startswith("ERR") else ans
+    return ans
